@@ -2,6 +2,7 @@ import RQ.Driver.ApplyEngine
 import RQ.Driver.DistEngine
 import RQ.Driver.PathEngine
 import RQ.Driver.ParseEngine
+import RQ.Driver.SeriesEngine
 open RQ
 
 def step (line : String) : String :=
@@ -11,6 +12,7 @@ def step (line : String) : String :=
   | some "D" => DistEngine.step fields
   | some "P" => PathEngine.step fields
   | some "U" => ParseEngine.step fields
+  | some "S" => SeriesEngine.step fields
   | some "T" => ApplyEngine.stepT fields
   | _ => "bad-op"
 
